@@ -28,7 +28,8 @@ RULE = ("mint: real dispensation BeginBlocker on the real keeper/bank, block his
         "start+4e18-1, start+2^61, random 62-64 bit; start 0, 1, at / right after the current height), allocation = k*length + {-4..+4} (k = 1, small, "
         "random, maximal) or near 2^128-1, one pool of multiplier 1 so that the per-block bound floor(allocation/length)*mod is tight, first 6 blocks. "
         "software upgrades in the restart family: scenarios none / one upgrade of a chain whose stored module version map is the released one (dispensation 2, clp 5) / "
-        "an upgrade with no version change / two upgrades; the plan is scheduled with UpgradeKeeper.ScheduleUpgrade two blocks ahead, at the upgrade height the app is "
+        "an upgrade with no version change / two upgrades; in two thirds of the upgrade chains two OVERLAPPING reward periods sit around the upgrade height (P0 listed first, "
+        "ending in the block before the upgrade on a non-distribution block of its mod, P1 listed after it and current from the upgrade block on; tag ...per-block.after-upgrade); the plan is scheduled with UpgradeKeeper.ScheduleUpgrade two blocks ahead, at the upgrade height the app is "
         "re-opened from its DB as the new release (version.Version = plan name, so the app's own SetupHandlers registers the RunMigrations handler) and the x/upgrade "
         "BeginBlocker applies it; judged: per-block mint step across the upgrade block (tag app.upgrade.mint-state-preserved) and counter = initial + created <= cap after every block. "
         "bridgecredit: block histories (dispensation BeginBlocker, messages on a CacheContext, clp EndBlocker with a reward period) with ethbridge claims through the real "
